@@ -4371,14 +4371,18 @@ def load_graph(
         #   (since direct dependencies reflect the imports found in the source)
         #   but A's cached *indirect* dependency on C is wrong.
         dependencies = [dep for dep in st.dependencies if st.priorities.get(dep) != PRI_INDIRECT]
+        # The same goes for suppressed indirect dependencies (see the end of this function):
+        # a module that is only an indirect dependency is not imported by this module, so
+        # it must not be brought into the build when a file for it exists.
+        suppressed = [dep for dep in st.suppressed if st.priorities.get(dep) != PRI_INDIRECT]
         if not manager.use_fine_grained_cache():
-            added = [dep for dep in st.suppressed if find_module_simple(dep, manager)]
+            added = [dep for dep in suppressed if find_module_simple(dep, manager)]
         else:
             # During initial loading we don't care about newly added modules,
             # they will be taken care of during fine-grained update. See also
             # comment about this in `State.new_state()`.
             added = []
-        for dep in st.ancestors + dependencies + st.suppressed:
+        for dep in st.ancestors + dependencies + suppressed:
             ignored = dep in st.suppressed_set and dep not in entry_points
             if ignored and dep not in added:
                 manager.missing_modules.setdefault(dep, SuppressionReason.NOT_FOUND)
